@@ -54,7 +54,7 @@ def _drive(args):
     alpha = isoc.alphabet(codec)
     cap = 99 if bc[bit]['field_type'] == 'LLVAR' else 999
     out = []
-    for tid in range(14 if not drv.THREADED else 60):
+    for tid in range(14 if not drv.THREADED else 160):
         r = drv.rng(seed, 'c16', bit, proc, tid)
         n = (10, 11, 12, 13, 16, 19, 19, 24, 40, min(cap, 99), 16, 17, 18, 15)[tid % 14]
         pan = ''.join('1234567890'[(i * 3 + tid) % 10] if i % 5 else '9876543210'[(i + tid) % 10] for i in range(n))
@@ -158,10 +158,10 @@ def run(rep, wd, tier, seed):
     outs = isocheck._pool(_drive, jobs)
     # four threads at once: masking configurations next to the SAME layout without any processor
     tjobs = []
-    for i, b in enumerate(var[:4]):
+    for i, b in enumerate(var[:8]):
         tjobs += [(seed + 500, b, ('PAN', 'PAN-PREFIX')[i % 2], 'latin_1', False, False), (seed + 500, b, None, 'latin_1', False, False)]
     jobs = jobs + tjobs
-    outs = outs + isocheck.mark_threaded(isocheck.threaded('harness.c16', '_drive', tjobs, procs=2))
+    outs = outs + isocheck.mark_threaded(isocheck.threaded('harness.c16', '_drive', tjobs, procs=4))
     rep.extra['masking_configurations'] = len(jobs)
     rep.extra['elements_given_the_processor'] = sorted(var, key=int)
     # one TLC batch per configuration: consts differ per job
